@@ -257,9 +257,8 @@ func fhExploreMap(c *vCtx, prop string) {
 			Enabled: func(s *fhState) []fhOp { return s.enabled() },
 			Key:     func(s *fhState) string { return s.key() },
 		}
-		sub := *c
-		sub.nshards = 1
-		st, tr, _ := eng.run(&sub, cf.depth)
+		eng.All = true
+		st, tr, _ := eng.run(c, cf.depth)
 		c.res.States += st
 		c.res.Transitions += tr
 		c.res.Traces += tr
@@ -650,9 +649,8 @@ func nhExplore(c *vCtx, prop string) {
 			Key:     func(s *nhState) string { return s.key() },
 			Close:   func(s *nhState) { s.e.close() },
 		}
-		sub := *c
-		sub.nshards = 1
-		st, tr, _ := eng.run(&sub, depth)
+		eng.All = true
+		st, tr, _ := eng.run(c, depth)
 		c.res.States += st
 		c.res.Transitions += tr
 		c.res.Traces += tr
